@@ -32,14 +32,17 @@ NSH = 16
 
 
 def plan(tier, seed):
-    return [{"name": "len%02d" % i, "spec": {"res": i}} for i in range(NSH)]
+    jobs = [{"name": "len%02d" % i, "spec": {"res": i}} for i in range(NSH)]
+    # the FIRST wraps / unwraps of a process made by several threads at once, each with its own encryptor (fresh process per shard)
+    jobs += [{"name": "firstuse%02d" % i, "spec": {"kind": "firstuse", "i": i}} for i in range(4 if tier == "quick" else 32)]
+    return jobs
 
 
 def mandatory_bins(tier):
     b = ["L%d" % L for L in range(254)]
     b += ["crc_lo_%02x" % v for v in range(256)] + ["crc_hi_%02x" % v for v in range(256)]
     b += ["crc_lo_00_solved", "crc_hi_00_solved", "crc_both_00_solved", "trailing_zero_payload", "key_ends_00",
-          "wrong_key", "wrong_marker", "wrong_crc", "custkey_pos_first", "custkey_pos_last", "custkey_mismatch", "custkey_pattern_before_slot", "shared_encryptor_object_sequence", "customer_key_attributes_reassigned_between_calls", "security_code_length_other_than_8", "payload_given_as_bytearray", "payload_given_as_memoryview", "frame_followed_by_extra_blocks", "length_byte_rewritten", "one_encryptor_object_used_by_concurrent_threads",
+          "wrong_key", "wrong_marker", "wrong_crc", "custkey_pos_first", "custkey_pos_last", "custkey_mismatch", "custkey_pattern_before_slot", "shared_encryptor_object_sequence", "customer_key_attributes_reassigned_between_calls", "security_code_length_other_than_8", "payload_given_as_bytearray", "payload_given_as_memoryview", "frame_followed_by_extra_blocks", "length_byte_rewritten", "one_encryptor_object_used_by_concurrent_threads", "customer_key_not_configured_but_position_given", "first_wraps_of_the_process_made_by_concurrent_threads",
           "security_code", "security_code_all_zero", "model_frame_accepted", "same_object_reuse"]
     return b
 
@@ -224,8 +227,84 @@ def contents_for(L, rng, nrand):
     return out
 
 
+def run_firstuse(ns, ctx, spec):
+    from ..sched import yieldrun
+
+    B = ns.bec2file
+    rng = ctx.rng
+    i = spec["i"]
+    nthreads = (2, 3, 4, 8)[i % 4]
+    codes = yieldrun.code_objects_of_module(ns.bec2file, ns.crypto, ns.plugin)
+    if i % 2:
+        codes += yieldrun.code_objects_of(ns.aes.AESModeOfOperationCBC, ns.aes.AES)
+    cases = []
+    for t in range(nthreads):
+        kind_ = ("cust", "code", "custkey")[(i + t) % 3]
+        k_ = rng.randbytes(16)
+        c_ = rng.randbytes(8)
+        pl = rng.randbytes(rng.choice((0, 1, 12, 13, 26, 40, 100, 253)) if kind_ != "custkey" else rng.choice((10, 26, 100)))
+        ck = rng.randbytes(10) if kind_ == "custkey" else None
+        pos = rng.randrange(len(pl) - 9) if ck else None
+        cases.append((kind_, k_, c_, pl, ck, pos))
+        ctx.distinct("firstuse", kind_, k_, c_, pl, ck, pos)
+
+    def body(case):
+        kind_, k_, c_, pl, ck, pos = case
+
+        def mk():
+            if kind_ == "code":
+                return B.ConfigSecurityCodeEncryptor(c_)
+            return B.SoftwareCustKeyEncryptor(k_, ck, pos) if ck else B.SoftwareCustKeyEncryptor(k_)
+
+        def run():
+            ct = mk().encrypt(pl)
+            return ct, mk().decrypt(ct)
+
+        return run
+
+    bodies = [body(c) for c in cases]
+    res, y = yieldrun.run_concurrently(bodies, codes, sleep=0.0002, max_yields=15000, timeout=150)
+    ctx.bin("first_wraps_of_the_process_made_by_concurrent_threads")
+    ctx.mon("line_yields_injected", y)
+
+    def judge(case, r, how):
+        kind_, k_, c_, pl, ck, pos = case
+        rp = {"kind": "firstuse", "i": i}
+        aes_ = model.security_code_key(c_) if kind_ == "code" else k_
+        inner, back = pl, pl
+        if ck:
+            inner = pl[:pos] + ck + pl[pos + 10:]
+            back = pl[:pos] + bytes(10) + pl[pos + 10:]
+        ctx.ev()
+        ctx.mon("encrypt")
+        ctx.mon("decrypt")
+        ctx.mon("frame_vs_model")
+        if r[0] == "exc":
+            ctx.violation("wrap_or_unwrap_raises:" + how, {"exc": r[1][:200], "threads": nthreads, "kind": kind_}, rp)
+        elif len(r[1][0]) % 16 or ossl.aes_cbc(aes_, ossl.ZERO_IV, r[1][0], False) != model.frame(inner):
+            ctx.violation("frame_differs_from_model:" + how, {"L": len(pl), "threads": nthreads, "kind": kind_}, rp)
+        elif r[1][1] != back:
+            ctx.violation("unwrap_returns_other_payload:" + how, {"L": len(pl), "threads": nthreads, "kind": kind_}, rp)
+
+    for case, r in zip(cases, res):
+        if r is None:
+            ctx.note("thread_still_running_after_timeout(inconclusive)")
+            continue
+        judge(case, r, "first_use_by_concurrent_threads")
+    # the same operations again, one after the other: whatever the first uses initialised must be sound
+    for case, fn in zip(cases, bodies):
+        try:
+            r = ("ok", fn())
+        except Exception as e:
+            r = ("exc", repr(e))
+        judge(case, r, "after_first_use_by_concurrent_threads")
+
+
 def run_shard(spec, ctx):
     ns = load()
+    if spec.get("kind") == "firstuse":
+        run_firstuse(ns, ctx, spec)
+        return
     rng = ctx.rng
     quick = ctx.tier == "quick"
     nrand = 6 if quick else 150
@@ -274,6 +353,8 @@ def run_shard(spec, ctx):
                     if quick and pn == "mid" and tag != "random":
                         continue
                     check_case(ns, ctx, "cust", key, payload, ck=ck, pos=pos, nwrong=1, tamper=(tag == "random"))
+                    if pn != "mid" and tag in ("random", "all_ff"):
+                        check_unconfigured(ns, ctx, key, payload, pos)
     # one encryptor object reused for a whole sequence of wraps of varying length: every frame must still be exact
     B = ns.bec2file
     for kind in ("cust", "code"):
@@ -507,7 +588,42 @@ def run_shard(spec, ctx):
                 ctx.note("L%d_outside_range_raises_%s" % (L, type(e).__name__))
 
 
+def check_unconfigured(ns, ctx, key, payload, pos):
+    """a customer-key encryptor whose customer key is NOT configured - given as an empty value, or as None - although a position is:
+    no key is configured, so the frame is the plain container of the payload and unwrapping returns the payload"""
+    B = ns.bec2file
+    for name, empty in (("empty_bytes", b""), ("empty_bytearray", bytearray()), ("none", None)):
+        rp = {"kind": "cust_empty", "key": key.hex(), "payload": payload.hex(), "pos": pos}
+        ctx.ev()
+        ctx.bin("customer_key_not_configured_but_position_given")
+        try:
+            enc = B.SoftwareCustKeyEncryptor(key, empty, pos)
+            ct = enc.encrypt(payload)
+            ctx.mon("encrypt")
+        except Exception as e:
+            ctx.violation("wrap_raises:customer_key_not_configured", {"customer_key": name, "exc": fmt_exc(e)}, rp)
+            continue
+        fr = ossl.aes_cbc(key, ossl.ZERO_IV, ct, False) if len(ct) % 16 == 0 and ct else None
+        ctx.mon("frame_vs_model")
+        if fr != model.frame(payload):
+            ctx.violation("frame_differs_from_model:customer_key_not_configured", {"customer_key": name, "L": len(payload), "pos": pos, "got": fr, "expected": model.frame(payload)}, rp)
+            continue
+        try:
+            got = B.SoftwareCustKeyEncryptor(key, empty, pos).decrypt(ct)
+            ctx.mon("decrypt")
+            if got != payload:
+                ctx.violation("unwrap_returns_other_payload:customer_key_not_configured", {"customer_key": name, "got": got, "expected": payload}, rp)
+        except Exception as e:
+            ctx.violation("unwrap_of_own_frame_raises:customer_key_not_configured", {"customer_key": name, "exc": fmt_exc(e)}, rp)
+
+
 def replay(rec, ctx):
     ns = load()
     h = lambda v: bytes.fromhex(v) if v is not None else None
+    if rec["kind"] == "firstuse":
+        run_firstuse(ns, ctx, {"i": rec["i"]})
+        return
+    if rec["kind"] == "cust_empty":
+        check_unconfigured(ns, ctx, h(rec["key"]), h(rec["payload"]), rec["pos"])
+        return
     check_case(ns, ctx, rec["kind"], h(rec["key"]), h(rec["payload"]), ck=h(rec["ck"]), pos=rec["pos"], code=h(rec["code"]), nwrong=4)
